@@ -211,6 +211,7 @@ func TestC11(t *testing.T) {
 				violation(rt, id, "c11", "bin", p.Size(), c, "%s", why)
 			}
 		}
+		ev.SampleFallback(id, map[string]interface{}{"packages": pkgDirs(p), "schedules": "repeat, -debug=p, GOMAXPROCS=1/2/16, permuted args x2, subset", "diagnostics": len(seq.Diags), "one_file": firstFile(src)})
 		if ev.SampleCount(id) < 2 && nt && p.Size() < 260 {
 			ev.Sample(id, map[string]interface{}{"packages": pkgDirs(p), "schedules": "repeat, -debug=p, GOMAXPROCS=1/2/16, permuted args x2, subset", "diagnostics": len(seq.Diags), "first_file": src[pkgDirs(p)[0]+"/f0.go"]})
 		}
